@@ -111,8 +111,9 @@ func (c06Stream) Generate(rng *rand.Rand, n int, thorough bool) []Case {
 	for len(cs) < n {
 		k := []int{1, 1, 2, 3, 8}[rng.Intn(5)]
 		np := []int{1, 2, 3, 5, 16, 64}[rng.Intn(6)]
-		if thorough && rng.Intn(5) == 0 {
-			np = 256
+		if rng.Intn(5) == 0 {
+			// the long pipelines of the quantifier (up to 256): any fixed bound on in-flight requests shows here
+			np = []int{65, 100, 129, 200, 255, 256}[rng.Intn(6)]
 			k = 1 + rng.Intn(2)
 		}
 		cs = append(cs, Case{Line: fmt.Sprintf("c06 conns=%d n=%d mode=%s seed=%d", k, np, []string{"plain", "plain", "tls", "starttls"}[rng.Intn(4)], rng.Intn(1<<30)), Kind: "pipeline"})
